@@ -23,6 +23,7 @@ class Side:
     def __init__(self, name, client):
         self.name, self.c = name, client
         self.uploads = {}           # ordinal -> real upload id
+        self.vids = {}              # real version id -> ordinal of first appearance
 
     def canon_headers(self, r):
         h = {k: r.headers.get(k) for k in e2e.CONTENT_HEADERS if r.headers.get(k) is not None}
@@ -35,6 +36,31 @@ class Side:
         def res(r, **extra):
             out = {"status": r.status, "code": r.code if r.status >= 300 else ""}
             out.update(extra); return out
+        def vord(v):
+            if v in (None, "", "null"): return v
+            return self.vids.setdefault(v, len(self.vids))
+        def vstr(o):
+            if o in (None, "", "null"): return o
+            inv = {n: v for v, n in self.vids.items()}
+            return inv.get(o, "00000000000000000000000000")
+        if k == "put-versioning":
+            return res(c.req("PUT", "/" + bk, query={"versioning": ""}, body=("<VersioningConfiguration><Status>%s</Status></VersioningConfiguration>" % op["status"]).encode()))
+        if k == "list-versions":
+            q = dict(op["query"]); q["versions"] = ""
+            if "version-id-marker" in q: q["version-id-marker"] = vstr(q["version-id-marker"])
+            r = c.req("GET", "/" + bk, query=q)
+            if r.status != 200 or r.xml() is None: return res(r)
+            x = r.xml()
+            ents = [(e.tag, e.findtext("Key"), vord(e.findtext("VersionId")), e.findtext("IsLatest"), e.findtext("Size")) for e in x if e.tag in ("Version", "DeleteMarker")]
+            return res(r, entries=ents, prefixes=[e.findtext("Prefix") for e in x.findall("CommonPrefixes")], truncated=x.findtext("IsTruncated"),
+                       next_key=x.findtext("NextKeyMarker") or "", next_vid=vord(x.findtext("NextVersionIdMarker") or ""),
+                       key_marker=x.findtext("KeyMarker") or "", vid_marker=vord(x.findtext("VersionIdMarker") or ""))
+        if k == "get-version":
+            r = c.req("GET", path, query={"versionId": vstr(op["version"])})
+            return res(r, body=(len(r.body), hashlib.md5(r.body).hexdigest()), version=vord(r.headers.get("x-amz-version-id"))) if r.status == 200 else res(r)
+        if k == "delete-version":
+            r = c.req("DELETE", path, query={"versionId": vstr(op["version"])})
+            return res(r, marker=r.headers.get("x-amz-delete-marker"), version=vord(r.headers.get("x-amz-version-id")))
         if k == "create-bucket": return res(c.req("PUT", path))
         if k == "delete-bucket": return res(c.req("DELETE", path))
         if k == "head-bucket": return res(c.req("HEAD", path))
@@ -43,14 +69,15 @@ class Side:
         if k == "put":
             hd = dict(op["content"]); hd.update({"x-amz-meta-" + a: b for a, b in op["meta"].items()})
             if op["tags"]: hd["x-amz-tagging"] = urllib.parse.urlencode(op["tags"])
-            r = c.req("PUT", path, body=body_of(op["size"], op["salt"]), headers=hd); return res(r, etag=e2e.etag_clean(r.headers.get("etag")))
+            r = c.req("PUT", path, body=body_of(op["size"], op["salt"]), headers=hd); return res(r, etag=e2e.etag_clean(r.headers.get("etag")), version=vord(r.headers.get("x-amz-version-id")))
         if k in ("get", "head"):
             hd = {"Range": op["range"]} if op.get("range") else {}
             r = c.req("GET" if k == "get" else "HEAD", path, headers=hd)
             out = res(r, **self.canon_headers(r)) if r.status < 300 else res(r)
             if k == "get" and r.status < 300: out["body"] = (len(r.body), hashlib.md5(r.body).hexdigest())
             return out
-        if k == "delete": return res(c.req("DELETE", path))
+        if k == "delete":
+            r = c.req("DELETE", path); return res(r, marker=r.headers.get("x-amz-delete-marker"), version=vord(r.headers.get("x-amz-version-id")))
         if k == "copy":
             hd = {"x-amz-copy-source": urllib.parse.quote("%s/%s" % (op["srcbucket"], op["src"]))}
             if op["replace"]:
@@ -171,6 +198,22 @@ def gen_program(rnd, n_ops, pid):
             ops.append({"op": "mp-list-parts", "bucket": bks[0], "key": k_, "upload": u, "max": mx, "marker": marker})
     ops.append({"op": "mp-list-uploads", "bucket": bks[0], "key": k_, "upload": u, "max": 1000, "marker": 0})
     ops.append({"op": "mp-abort", "bucket": bks[0], "key": k_, "upload": u})
+    # ... and with a version history that is listed with every combination of markers, read and deleted by version id
+    ops.append({"op": "put-versioning", "bucket": bks[0], "status": "Enabled"})
+    for key in ("ver/a", "ver/b", "ver/a", "ver/c", "ver/b"):
+        ops.append({"op": "put", "bucket": bks[0], "key": key, "size": 17, "salt": newsalt(), "content": CONTENT[0], "meta": METAS[0], "tags": TAGS[0]})
+    ops.append({"op": "delete", "bucket": bks[0], "key": "ver/b"})
+    for q in ({"prefix": "ver/"}, {"prefix": "ver/", "max-keys": "2"}, {"prefix": "ver/", "key-marker": "ver/a"}, {"prefix": "ver/", "key-marker": "ver/b"}, {"key-marker": "ver/b", "max-keys": "1"},
+              {"prefix": "ver/", "key-marker": "ver/a", "version-id-marker": 0}, {"prefix": "ver/", "key-marker": "ver/b", "version-id-marker": 1, "max-keys": "1"},
+              {"prefix": "ver", "delimiter": "/"}, {"key-marker": "ver/a", "version-id-marker": ""}, {"key-marker": "", "version-id-marker": 0}, {}):
+        ops.append({"op": "list-versions", "bucket": bks[0], "query": q})
+    for v in (0, 1, 2, "null", 77):
+        ops.append({"op": "get-version", "bucket": bks[0], "key": rnd.choice(["ver/a", "ver/b"]), "version": v})
+    ops.append({"op": "delete-version", "bucket": bks[0], "key": "ver/a", "version": 2})
+    ops.append({"op": "list-versions", "bucket": bks[0], "query": {"prefix": "ver/"}})
+    ops.append({"op": "put-versioning", "bucket": bks[0], "status": "Suspended"})
+    ops.append({"op": "put", "bucket": bks[0], "key": "ver/a", "size": 5, "salt": newsalt(), "content": CONTENT[0], "meta": METAS[0], "tags": TAGS[0]})
+    ops.append({"op": "list-versions", "bucket": bks[0], "query": {"prefix": "ver/a"}})
     return ops
 
 
@@ -178,7 +221,8 @@ def run(chk):
     quick = chk.tier == "quick"
     chk.rule = ("a case is one random program (20-45 operations) of bucket create / delete / head / list, put (5 sizes x 3 content-header sets x 3 metadata sets x 3 tag sets), get / head with 8 range "
                 "forms, delete, CopyObject (COPY / REPLACE, missing source), ListObjects V1 / V2 with 13 parameter sets, object tagging put / get / delete, and multipart create / upload-part "
-                "(incl. 5 MiB) / upload-part-copy with ranges / list-parts / list-uploads / complete (valid and invalid) / abort, run twice: against an S3 endpoint directly and against a gateway "
+                "(incl. 5 MiB) / upload-part-copy with ranges / list-parts / list-uploads / complete (valid and invalid) / abort, ending with a page-by-page ListParts walk and a version history (enable, five puts, a delete marker) listed under eleven marker / prefix / delimiter "
+                "combinations, read and deleted by version id, then suspended; run twice: against an S3 endpoint directly and against a gateway "
                 "that uses an identical second endpoint as its s3 backend; every client-visible result is compared. Non-trivial: every program; distinct by content.")
     gwbin = gobuild.build_gateway("verif")
     gen.regenerate()
@@ -191,7 +235,7 @@ def run(chk):
         chk.extra["unforwarded_or_unreturned_fields"] = " ".join(out.split())[:1500]
     rnd = chk.rnd
     n_prog = 12 if quick else 150
-    with gw.Site({"iam": False, "tls": True}, name="c18d") as sd, gw.Site({"iam": False, "tls": True}, name="c18e") as se:
+    with gw.Site({"iam": False, "tls": True, "versioning": True}, name="c18d") as sd, gw.Site({"iam": False, "tls": True, "versioning": True}, name="c18e") as se:
         gd, ge = sd.gateway(gwbin), se.gateway(gwbin)
         with gw.Site({"iam": False, "backend": "s3", "s3": {"endpoint": "https://127.0.0.1:%d" % ge.port}}, name="c18p") as sp:
             gp = sp.gateway(gwbin)
@@ -259,6 +303,16 @@ def kept_data(chk, gwbin):
             chk.case(("kept", "acl-four-grants"), True); chk.traces += 1
             if got4 != want4:
                 chk.fail("c18:kept:acl-longer-than-a-tag-value", "proxied bucket: PutBucketAcl with four grants answers %d %s and the ACL reads %r (the gateway keeps the ACL in one tag of the backend bucket, whose value is limited to 256 characters)" % (r.status, r.code, got4), {"steps": steps})
+            # ... and a shorter ACL written over the long one replaces all of it; the bucket stays usable
+            r = cl("u2").req("PUT", "/kept-u2", query={"acl": ""}, headers={"x-amz-acl": "private"})
+            steps.append(("put-acl private over the four grants", r.status, r.code))
+            check("acl shrunk", acl("kept-u2"), ("u2", [("u2", "FULL_CONTROL")]))
+            rp_ = cl("u2").req("PUT", "/kept-u2/after-acl-shrink", body=b"x"); rh_ = cl("u2").req("HEAD", "/kept-u2/after-acl-shrink")
+            check("object put/head after the ACL shrank", (rp_.status, rh_.status), (200, 200))
+            check("tags of the bucket whose ACL shrank", tags("kept-u2"), (404, "NoSuchTagSet"))
+            r = cl("u2").req("PUT", "/kept-u2", query={"acl": ""}, headers={"x-amz-grant-read": "u1", "x-amz-grant-write-acp": "adm", "x-amz-grant-read-acp": "adm", "x-amz-grant-write": "u1"})
+            r = cl("u2").req("PUT", "/kept-u2", query={"acl": ""}, headers={"x-amz-grant-read": "u1"})
+            check("acl shrunk again", acl("kept-u2"), ("u2", sorted([("u2", "FULL_CONTROL"), ("u1", "READ")])))
             P0 = {"Version": "2012-10-17", "Statement": [{"Effect": "Allow", "Principal": "*", "Action": "s3:GetObject", "Resource": "arn:aws:s3:::kept-u1/*"}]}
             R.req("PUT", "/kept-u1", query={"policy": ""}, body=json.dumps(P0).encode())
             check("policy written", pol("kept-u1"), P0)
